@@ -28,6 +28,8 @@ import random
 import uuid
 import warnings
 
+import collections
+
 import c03_oracle as oracle
 import c03_typeddicts
 import coregen
@@ -196,6 +198,113 @@ def adversarial(rng, value, wire, others, k):
     return out + texts
 
 
+# ---- instances of the target classes themselves, holding non-conforming field values ----
+
+def _rebuild(cls, fields: dict):
+    if hasattr(cls, "_fields") and issubclass(cls, tuple):
+        return cls(*[fields[f] for f in cls._fields])
+    return cls(**fields)
+
+
+def _fields_of(reg, inst):
+    n = reg.classes[type(inst)]
+    return {f: getattr(inst, f) for f, _, _ in reg.env["defs"][n][3] if hasattr(inst, f)}
+
+
+def _instance_paths(reg, v, path=(), depth=0):
+    """paths to every instance of a generated structured class (not TypedDicts: those are dicts) inside v"""
+    if depth > 6:
+        return
+    t = type(v)
+    if t in reg.classes and reg.kind_of(v)[0] in ("obj", "named"):
+        yield path
+        for f, x in _fields_of(reg, v).items():
+            yield from _instance_paths(reg, x, path + (("field", f),), depth + 1)
+    elif t in (list, tuple, collections.deque):
+        for i, x in enumerate(v):
+            yield from _instance_paths(reg, x, path + (("idx", i),), depth + 1)
+    elif t in (dict, collections.OrderedDict):
+        for k, x in v.items():
+            yield from _instance_paths(reg, x, path + (("key", k),), depth + 1)
+
+
+def _map_at(reg, v, path, fn):
+    """copy of v with fn applied to the object at path; containers and instances on the way are rebuilt"""
+    if not path:
+        return fn(v)
+    (kind, k), rest = path[0], path[1:]
+    t = type(v)
+    if kind == "idx":
+        l = list(v)
+        l[k] = _map_at(reg, l[k], rest, fn)
+        return t(l)
+    if kind == "key":
+        return t((a, (_map_at(reg, b, rest, fn) if a == k else b)) for a, b in v.items())
+    fs = _fields_of(reg, v)
+    fs[k] = _map_at(reg, fs[k], rest, fn)
+    return _rebuild(t, fs)
+
+
+_SUBCLASSES: dict = {}
+
+
+def _subclass(cls):
+    if cls not in _SUBCLASSES:
+        sub = type("VerifSub" + cls.__name__, (cls,), {"_verif_sub": True})
+        sub.__module__ = cls.__module__
+        _SUBCLASSES[cls] = sub
+    return _SUBCLASSES[cls]
+
+
+def bad_instances(rng, reg, value, k):
+    """copies of a valid value in which one instance of a structured class (at the root or nested) is replaced by an
+    instance of THE SAME class (or a subclass) whose fields hold non-conforming values: the raw wire forms, None, a
+    value of another class, a value nested one level too deep"""
+    from typelib import marshals
+    paths = list(_instance_paths(reg, value))
+    if not paths:
+        return []
+    roots = [p for p in paths if p == ()]
+    out = []
+    for _ in range(k):
+        path = () if (roots and rng.random() < 0.6) else rng.choice(paths)
+        op = rng.choice(["wire-fields", "wire-fields", "none-field", "retyped-field", "nested-field", "all-none", "subclass"])
+
+        def spoil(inst, op=op):
+            fs = _fields_of(reg, inst)
+            cls = type(inst)
+            if op == "subclass":
+                return _rebuild(_subclass(cls), fs)
+            if not fs:
+                return inst
+            if op == "wire-fields":
+                impl.clear_caches()
+                try:
+                    with warnings.catch_warnings():
+                        warnings.simplefilter("ignore")
+                        w = marshals.marshal(inst)
+                except BaseException:
+                    w = None
+                if isinstance(w, dict):
+                    fs = {f: copy.deepcopy(w.get(f, x)) for f, x in fs.items()}
+                else:
+                    f = rng.choice(list(fs))
+                    fs[f] = None
+            elif op == "all-none":
+                fs = {f: None for f in fs}
+            else:
+                f = rng.choice(list(fs))
+                fs[f] = None if op == "none-field" else _retype(rng, fs[f]) if op == "retyped-field" else [fs[f]]
+            return _rebuild(cls, fs)
+
+        try:
+            x = _map_at(reg, value, path, spoil)
+        except Exception:
+            continue
+        out.append(("bad-instance:" + op + ("@root" if path == () else "@nested"), x))
+    return out
+
+
 @contextlib.contextmanager
 def record_leaf_calls(log):
     """every scalar-routine call the mirror makes (these fill Mirror.t.lu / Mirror.t.nu): keep the Python objects"""
@@ -225,7 +334,7 @@ def build_stream(run, n_groups, seed_offset, k_adv, judge=True):
     rng = random.Random(run.seed * 7919 + seed_offset)
     log = []
     st = {"groups": [], "records": [], "failures": [], "law_failures": [], "tags": {}, "judged": 0, "accepted": 0,
-          "unjudged": 0, "positions": 0, "laws": {"leaf_u_ok": 0, "none_u_none": 0}, "verdicts": {}}
+          "unjudged": 0, "positions": 0, "laws": {"leaf_u_ok": 0, "none_u_none": 0}, "verdicts": {}, "entry_calls": {}}
     with record_leaf_calls(log):
         groups, records = coreprop.generate(run, n_groups, seed_offset=seed_offset, values_per_root=2,
                                             env_fn=env_fn, roots_fn=roots_fn)
@@ -235,7 +344,9 @@ def build_stream(run, n_groups, seed_offset, k_adv, judge=True):
         for rec in records:
             others = [r.value for r in by_group[id(rec.group)] if r.ri != rec.ri]
             wire = rec.wire[1] if rec.wire and rec.wire[0] == "ok" else None
-            for tag, x in adversarial(rng, rec.value, wire, others, k_adv):
+            pool = adversarial(rng, rec.value, wire, others, k_adv)
+            pool += bad_instances(rng, rec.group.reg, rec.value, max(2, k_adv - 1))
+            for tag, x in pool:
                 try:
                     obs = rec.group.add("u", rec.ri, x)
                 except Exception as e:       # an input the registry cannot encode
@@ -258,6 +369,24 @@ def build_stream(run, n_groups, seed_offset, k_adv, judge=True):
                 st["positions"] += pos
                 if problems:
                     st["failures"].append(make_failure(rec, tag, x, obs[1], problems))
+            # the other public entry points on the same inputs (all bad instances, the valid value, a sample of the rest)
+            for tag, x, obs in rec.inputs:
+                if not (tag.startswith("bad-instance") or tag == "valid" or rng.random() < 0.12):
+                    continue
+                for entry in entries_for(x):
+                    r = call_entry(entry, rec.pytype, x)
+                    st["entry_calls"][entry] = st["entry_calls"].get(entry, 0) + 1
+                    st["judged"] += 1
+                    if r[0] != "ok":
+                        continue
+                    st["accepted"] += 1
+                    problems, unj, pos = oracle.check(rec.pytype, r[1], ns)
+                    st["unjudged"] += unj
+                    st["positions"] += pos
+                    if problems:
+                        f = make_failure(rec, tag, x, r[1], problems)
+                        f["entry"] = entry
+                        st["failures"].append(f)
     # ---- leaf laws ----
     for kind, reg, s, x, v in log:
         if kind == "none":
@@ -283,7 +412,7 @@ def make_failure(rec, tag, x, result, problems):
         xsrc = oracle.pysrc(x)
     except Exception:
         xsrc = None
-    return {"kind": "nonconforming-result", "tag": tag,
+    return {"kind": "nonconforming-result", "tag": tag, "entry": "unmarshals.unmarshal",
             "symptom_class": oracle.symptom_class(problems[0]),
             "annotation": universe.src_ty(rec.tdesc, g.env), "annotation_repr": repr(rec.pytype)[:300],
             "module_source": g.src, "input": xsrc, "input_repr": repr(x)[:400],
@@ -521,9 +650,47 @@ def correspond(run: lib.Run):
 _replay_counter = [0]
 
 
-def run_case(module_source, annotation, input_src):
-    """exec the module, evaluate annotation and input in it, unmarshal, judge"""
+ENTRIES = ("unmarshals.unmarshal", "typelib.unmarshal", "typelib.unmarshaller", "typelib.codec.unmarshal",
+           "typelib.decode", "typelib.codec.decode")
+
+
+def entries_for(x):
+    """the public entry points other than unmarshals.unmarshal that accept x"""
+    out = ["typelib.unmarshal", "typelib.unmarshaller", "typelib.codec.unmarshal"]
+    if type(x) in (str, bytes) and x[:1] in ("[", "{", b"[", b"{"):
+        out += ["typelib.decode", "typelib.codec.decode"]
+    return out
+
+
+def call_entry(entry, t, x):
+    """-> ('ok', result) | ('raise', text)"""
+    import typelib
     from typelib import unmarshals
+    impl.clear_caches()
+    try:
+        with warnings.catch_warnings():
+            warnings.simplefilter("ignore")
+            if entry == "unmarshals.unmarshal":
+                return ("ok", unmarshals.unmarshal(t, x))
+            if entry == "typelib.unmarshal":
+                return ("ok", typelib.unmarshal(t, x))
+            if entry == "typelib.unmarshaller":
+                return ("ok", typelib.unmarshaller(t)(x))
+            if entry == "typelib.codec.unmarshal":
+                return ("ok", typelib.codec(t).unmarshal(x))
+            if entry == "typelib.decode":
+                return ("ok", typelib.decode(t, x))
+            if entry == "typelib.codec.decode":
+                return ("ok", typelib.codec(t).decode(x))
+            raise ValueError(entry)
+    except RecursionError:
+        return ("raise", "RecursionError")
+    except BaseException as e:
+        return ("raise", f"{type(e).__name__}: {e}"[:300])
+
+
+def run_case(module_source, annotation, input_src, entry="unmarshals.unmarshal"):
+    """exec the module, evaluate annotation and input in it, unmarshal through the entry point, judge"""
     _replay_counter[0] += 1
     name = f"verif_c03_replay_{os.getpid()}_{_replay_counter[0]}"
     mod = impl.new_module(name, module_source)
@@ -531,17 +698,12 @@ def run_case(module_source, annotation, input_src):
         ns = vars(mod)
         t = eval(annotation, ns)
         x = eval(input_src, ns)
-        impl.clear_caches()
-        try:
-            with warnings.catch_warnings():
-                warnings.simplefilter("ignore")
-                r = unmarshals.unmarshal(t, x)
-        except RecursionError:
-            return {"fails": False, "raised": "RecursionError"}
-        except BaseException as e:
-            return {"fails": False, "raised": f"{type(e).__name__}: {e}"[:300]}
+        res = call_entry(entry, t, x)
+        if res[0] != "ok":
+            return {"fails": False, "raised": res[1], "entry": entry}
+        r = res[1]
         problems, unj, _ = oracle.check(t, r, ns)
-        return {"fails": bool(problems), "observed": repr(r)[:400], "problems": problems[:4],
+        return {"fails": bool(problems), "observed": repr(r)[:400], "problems": problems[:4], "entry": entry,
                 "symptom_class": oracle.symptom_class(problems[0]) if problems else None}
     finally:
         impl.drop_module(name)
@@ -587,7 +749,7 @@ def typeddict_stream(run, per_module):
 
 
 def replay(payload):
-    r = run_case(payload["module_source"], payload["annotation"], payload["input"])
+    r = run_case(payload["module_source"], payload["annotation"], payload["input"], payload.get("entry", "unmarshals.unmarshal"))
     r["required"] = "unmarshal(T, x) raises or returns a value that structurally conforms to T"
     return r
 
@@ -616,12 +778,12 @@ def finish_failure(f):
                 src = oracle.pysrc(c)
             except Exception:
                 return False
-            r = run_case(f["module_source"], f["annotation"], src)
+            r = run_case(f["module_source"], f["annotation"], src, f.get("entry", "unmarshals.unmarshal"))
             return r["fails"] and r.get("symptom_class") == want
 
         try:
             small = oracle.shrink(x, still)
-            r = run_case(f["module_source"], f["annotation"], oracle.pysrc(small))
+            r = run_case(f["module_source"], f["annotation"], oracle.pysrc(small), f.get("entry", "unmarshals.unmarshal"))
             if r["fails"]:
                 f["input"], f["input_repr"] = oracle.pysrc(small), repr(small)[:400]
                 f["observed"], f["problems"] = r["observed"], r["problems"]
@@ -639,7 +801,7 @@ def search(run: lib.Run, broken):
     ncorp = 0
     for fn, p in corpus_cases():
         ncorp += 1
-        r = run_case(p["module_source"], p["annotation"], p["input"])
+        r = run_case(p["module_source"], p["annotation"], p["input"], p.get("entry", "unmarshals.unmarshal"))
         if r["fails"]:
             fails.append({"kind": "nonconforming-result", "tag": "corpus:" + fn, "symptom_class": r["symptom_class"],
                           "annotation": p["annotation"], "module_source": p["module_source"], "input": p["input"],
@@ -676,7 +838,7 @@ def search(run: lib.Run, broken):
     run.search_stats["oracle"] = {
         "evaluations": evaluations, "distinct_nontrivial": accepted, "accepted_results_checked": accepted,
         "positions_checked": positions, "unjudged_positions": st["unjudged"], "corpus_cases": ncorp,
-        "failures": len(fails), "failure_classes": sorted(best), "typeddict_stream": td_stats,
+        "failures": len(fails), "failure_classes": sorted(best), "typeddict_stream": td_stats, "entry_point_calls": st["entry_calls"],
         "input_tags": st["tags"],
         "rule": "every unmarshal(T, x) of the generated stream (valid values, wire forms, JSON / literal text, corrupted "
                 "wire forms, unrelated objects, instances of other classes) that returns is checked by the independent "
